@@ -52,6 +52,9 @@ CLAIMS = {
  "C08": ("loop-shape rules on Check (forward range counters, no reordering), CFG outcome rules (first match final, non-match continues, default deny), type-switch exhaustiveness against the generated oneof with per-arm provenance, branch-fact rules on the criterion function",
          "Decides that chains and filters are visited in configuration order, that after a matching chain no later chain is reachable, that every surviving filter kind has an arm building the judging handler from that filter's own configuration, that the fall-through is deny unless unmatched requests are allowed, and that the criterion is nil/equality/prefix on the lower-cased header with the header value as subject. Equivalence with a reference evaluator over all layouts is not established.",
          "go/ssa model; C01.R5 for the per-filter loop; C17.R3 for the eliminated override kind"),
+ "C12": ("lockset rule on the memory store (every access to the session map and session fields under its mutex), writer/reader/scan-struct table agreement for the Redis hash fields (constants, package tables, struct tags), stale-member HDEL rule, no-replica-local-state write scan, backend-key provenance in both stores",
+         "Decides necessary conditions of `both stores implement one abstract session map`: single-operation atomicity of the memory store by lock discipline, agreement of what the Redis store writes, reads, scans, clears and removes, absence of replica-local state, keys derived only from the session-id parameter, write-once creation time. Equivalence with the abstract map over all operation sequences and linearizability are not decided.",
+         "go/ssa model; Redis command semantics; struct tags drive go-redis Scan"),
 }
 
 NOT_YET = "check under construction in this round; see DESIGN.md section 4 for the planned static rules"
